@@ -73,25 +73,30 @@ def main(argv=None):
     try: lock = json.load(open(LOCK))
     except Exception: lock = {}
     timeout = 10 if tier == 'quick' else 60
-    results = {}
+    results = {k: None for k in keys}
     # --- theory lemmas used by these contracts are proved on every run
     from gvc import induct
-    theories = sorted({th for k in keys for th in REG.by_name[k].theories})
+    theories = sorted({th for k in keys for th in V.theories_of(REG.by_name[k])})
     lemma_res = induct.prove_lemmas(theories, timeout=timeout)
     # --- deductive part
+    todo_c = []
     for k in keys:
         c = REG.by_name[k]
-        r = V.verify(c, timeout=timeout, keep_dir=os.path.join(ROOT, 'replays', 'smt'))
-        if r['status'] == 'failed':
-            # second opinion with the thorough budget and every back end before anything is reported
-            from gvc.smt import discharge
-            from gvc import sets as S
-            ax = V.theory_axioms(c) + [f for _n, f in S.GEN_AXIOMS]
-            bad = [o for o in r['failed'] if o.kind != 'canary' and o.backend != 'effects']
-            discharge(bad, ax, timeout=60, backends=('z3', 'cvc5', 'cvc5-enum', 'z3old'), keep_dir=os.path.join(ROOT, 'replays', 'smt'))
-            r['failed'] = [o for o in r['obligations'] if (o.kind != 'canary' and o.status != 'unsat') or (o.kind == 'canary' and o.status == 'unsat')]
-            if not r['failed']: r['status'] = 'proved'
-        results[k] = r
+        if not c.verify:
+            results[k] = {'fn': k, 'status': 'assumed', 'obligations': [], 'reason': 'contract assumed at call sites; the function is checked by the bounded stand-in only'}
+        else: todo_c.append(c)
+    vr = V.verify_many(todo_c, timeout=timeout, keep_dir=os.path.join(ROOT, 'replays', 'smt'))
+    for k in keys:
+        if k in vr: results[k] = vr[k]
+    retry = [o for r in results.values() if r['status'] == 'failed' for o in r['failed'] if o.kind != 'canary' and o.backend != 'effects']
+    if retry:
+        # second opinion with the thorough budget and every back end before anything is reported (hypotheses already include the theory)
+        from gvc.smt import discharge
+        discharge(retry, [], timeout=60, backends=('z3e', 'z3', 'cvc5', 'cvc5-enum', 'z3old'), keep_dir=os.path.join(ROOT, 'replays', 'smt'))
+        for r in results.values():
+            if r['status'] == 'failed':
+                r['failed'] = [o for o in r['obligations'] if (o.kind != 'canary' and o.status != 'unsat') or (o.kind == 'canary' and o.status == 'unsat')]
+                if not r['failed']: r['status'] = 'proved'
     # --- lock bookkeeping
     newlock = dict(lock)
     for k, r in results.items():
@@ -124,7 +129,7 @@ def main(argv=None):
             code_changed = lk is None or lk['source_hash'] != r['info']['source_hash']
             for o in r['failed']:
                 rec = {'function': k, 'obligation': o.id, 'kind': o.kind, 'line': o.line, 'solver': o.output, 'source_changed': code_changed}
-                if o.kind == 'frame':
+                if o.kind == 'frame' and not o.name.startswith('default/'):
                     # the effect analysis over-approximates: a possible mutation is reported as a violation only together with a
                     # concrete witness from the bounded stand-in; otherwise it is recorded as not proved
                     frame_open.append(rec); continue
@@ -203,17 +208,19 @@ def write_evidence(pid, tier, seed, spec, results, lemma_res, b, violations, bvi
                     'obligations': len([o for o in r['obligations'] if o.kind != 'canary']), 'discharged': len([o for o in r['obligations'] if o.kind != 'canary' and o.status == 'unsat']),
                     'requires': c.requires, 'ensures': c.ensures, 'loop_invariants': sum(len(l['invariant']) for l in c.loops.values()),
                     'reason': r.get('reason')})
-    theories = sorted({th for k in results for th in REG.by_name[k].theories})
+    from gvc import verify as V2
+    theories = sorted({th for k in results for th in V2.theories_of(REG.by_name[k])})
     assumed = ['axiom[%s] %s' % (th, n) for th in theories for (tag, n, _f) in T.AXIOMS.get(th, []) if tag == 'assumed']
     lfp = ['least-fixpoint intro rules[%s] %s (leastness used only via explicit instances)' % (th, n) for th in theories for (tag, n, _f) in T.AXIOMS.get(th, []) if tag == 'lfp']
     all_proved = bool(results) and all(r['status'] == 'proved' for r in results.values()) and lem_ok == lem_total
+    assumed_contracts = ['assumed contract (not verified, bounded only): %s' % k for k, r in results.items() if r['status'] == 'assumed']
     level = spec['level'] if all_proved or spec['level'] == 'other' else 'other'
     samples = [{'obligation': o.id, 'kind': o.kind, 'backend': o.backend, 'ms': o.ms, 'goal': str(o.goal)[:300]} for o in obls[:3]]
     cov = {'obligations': len(obls) + lem_total, 'discharged': len(dis) + lem_ok, 'code_obligations': len(obls), 'theory_lemma_obligations': lem_total,
            'discharged_by_backend': by_backend, 'solver_ms_total': sum(o.ms or 0 for o in obls),
            'checker_cmd': 'python3-vt -m gvc.driver %s --tier %s  (z3-new 5.1 CLI, then cvc5 1.0.3 on anything not unsat; one fresh process per obligation)' % (pid, tier),
            'trusted_base': ['gvc symbolic executor and its table of Python built-in semantics (gvc/symexec.py)', 'z3 5.1.0 / cvc5 1.0.3',
-                            'value semantics for containers: soundness side condition (no mutation through aliases) checked by gvc/effects.py'] + assumed + lfp + spec.get('trusted', []),
+                            'value semantics for containers: soundness side condition (no mutation through aliases) checked by gvc/effects.py'] + assumed + lfp + assumed_contracts + spec.get('trusted', []),
            'functions_under_contract': fns, 'samples': samples,
            'explanation': spec['explanation'],
            'bounded_standins': None, 'downgraded_to_bounded': downgraded}
